@@ -351,74 +351,108 @@ func ruleC20TermPass(c *Ctx) {
 			continue
 		}
 		key := "RequestTermination:" + f.Name()
-		// release: a call whose receiver/value is a load of this field
+		// release: a call whose receiver/value is a load of this field; or a call to a package function that itself
+		// releases the field or finds it nil on every path (a helper such as stopListenerLocked)
 		isLoadOf := func(v ssa.Value) bool {
 			_, lf := loadedField(v)
 			return lf == f
 		}
-		releaseIn := func(b *ssa.BasicBlock) bool {
-			for _, in := range b.Instrs {
-				call, ok := in.(*ssa.Call)
-				if !ok {
-					continue
-				}
-				if call.Call.IsInvoke() && isLoadOf(call.Call.Value) && call.Call.Method.Name() == "Close" {
-					return true
-				}
-				if !call.Call.IsInvoke() && isLoadOf(call.Call.Value) {
-					return true
-				}
+		var releases func(fn *ssa.Function, depth int) bool
+		releases = func(fn *ssa.Function, depth int) bool {
+			if len(fn.Blocks) == 0 || depth > 3 {
+				return false
 			}
-			return false
-		}
-		// search for a path entry -> return that is neither released nor excused
-		bad := false
-		seen := map[*ssa.BasicBlock]bool{}
-		var walk func(b *ssa.BasicBlock)
-		walk = func(b *ssa.BasicBlock) {
-			if seen[b] || bad {
-				return
-			}
-			seen[b] = true
-			if releaseIn(b) {
-				return
-			}
-			last := b.Instrs[len(b.Instrs)-1]
-			switch t := last.(type) {
-			case *ssa.Return:
-				bad = true
-			case *ssa.If:
-				if bo, ok := t.Cond.(*ssa.BinOp); ok && (bo.Op == token.NEQ || bo.Op == token.EQL) {
-					var other ssa.Value
-					if isLoadOf(bo.X) {
-						other = bo.Y
-					} else if isLoadOf(bo.Y) {
-						other = bo.X
+			releaseIn := func(b *ssa.BasicBlock) bool {
+				for _, in := range b.Instrs {
+					call, ok := in.(*ssa.Call)
+					if !ok {
+						continue
 					}
-					if other != nil && isNilConst(other) {
-						// the nil side is excused
-						nonNil := b.Succs[0]
-						if bo.Op == token.EQL {
-							nonNil = b.Succs[1]
+					if call.Call.IsInvoke() && isLoadOf(call.Call.Value) && call.Call.Method.Name() == "Close" {
+						return true
+					}
+					if !call.Call.IsInvoke() && isLoadOf(call.Call.Value) {
+						return true
+					}
+					// the field's value copied to a local first: x := eng.f; ...; x.Close() / x()
+					if call.Call.IsInvoke() && call.Call.Method.Name() == "Close" || !call.Call.IsInvoke() && call.Call.StaticCallee() == nil {
+						if localCopyOf(call.Call.Value, isLoadOf) {
+							return true
 						}
-						walk(nonNil)
-						return
+					}
+					if g := call.Call.StaticCallee(); g != nil && c.InPkg(g) && g != fn && releases(g, depth+1) {
+						return true
 					}
 				}
-				for _, s := range b.Succs {
-					walk(s)
+				return false
+			}
+			bad := false
+			seen := map[*ssa.BasicBlock]bool{}
+			var walk func(b *ssa.BasicBlock)
+			walk = func(b *ssa.BasicBlock) {
+				if seen[b] || bad {
+					return
 				}
-			default:
-				for _, s := range b.Succs {
-					walk(s)
+				seen[b] = true
+				if releaseIn(b) {
+					return
+				}
+				last := b.Instrs[len(b.Instrs)-1]
+				switch t := last.(type) {
+				case *ssa.Return:
+					bad = true
+				case *ssa.If:
+					if bo, ok := t.Cond.(*ssa.BinOp); ok && (bo.Op == token.NEQ || bo.Op == token.EQL) {
+						var other ssa.Value
+						if isLoadOf(bo.X) || localCopyOf(bo.X, isLoadOf) {
+							other = bo.Y
+						} else if isLoadOf(bo.Y) || localCopyOf(bo.Y, isLoadOf) {
+							other = bo.X
+						}
+						if other != nil && isNilConst(other) {
+							nonNil := b.Succs[0]
+							if bo.Op == token.EQL {
+								nonNil = b.Succs[1]
+							}
+							walk(nonNil)
+							return
+						}
+					}
+					for _, s := range b.Succs {
+						walk(s)
+					}
+				default:
+					for _, s := range b.Succs {
+						walk(s)
+					}
 				}
 			}
+			walk(fn.Blocks[0])
+			return !bad
 		}
-		walk(rt.Blocks[0])
+		bad := !releases(rt, 0)
 		if bad {
 			c.S.Bad("R-C20-term-releases", key, c.Pos(rt.Pos()), fmt.Sprintf("RequestTermination can return without releasing the %s (%s) although it exists: a path avoids both the release and the nil test of that field — Close/WaitForTermination then hang or the port stays bound", kind, f.Name()))
 		} else {
 			c.S.OK("R-C20-term-releases", key, c.Pos(rt.Pos()), fmt.Sprintf("every path releases the %s or finds it nil", kind))
 		}
 	}
+}
+
+// localCopyOf: v is the same value as a load satisfying isLoad (identity; SSA has no copies) or a phi/conversion of one.
+func localCopyOf(v ssa.Value, isLoad func(ssa.Value) bool) bool {
+	switch x := v.(type) {
+	case *ssa.ChangeType:
+		return isLoad(x.X) || localCopyOf(x.X, isLoad)
+	case *ssa.ChangeInterface:
+		return isLoad(x.X) || localCopyOf(x.X, isLoad)
+	case *ssa.Phi:
+		for _, e := range x.Edges {
+			if !(isLoad(e) || localCopyOf(e, isLoad)) {
+				return false
+			}
+		}
+		return len(x.Edges) > 0
+	}
+	return isLoad(v)
 }
